@@ -709,6 +709,112 @@ def late_work_race(ctx, k):
         d.close()
 
 
+def late_ops_with_bystander(ctx, k):
+    """Another client stays connected to the namespace (so the namespace and
+    its rooms stay alive) while a client comes, joins rooms and goes; the
+    application - a handler or job that was still running - then uses the
+    departed client's session id once more (enter_room, leave_room, emit with
+    a callback, close_room, disconnect; they may raise).  The departed client
+    leaves nothing behind: no room lists it and the object graph is back at
+    the size it had before it came."""
+    from vlib import drive as D
+    rng = ctx.case_rng(14 * 10 ** 7 + k)
+    kind = 'sync' if k % 2 == 0 else 'async'
+    ns = rng.choice(['/', '/a'])
+    end = rng.choice(['cdisc', 'sdisc', 'lose'])
+    late = rng.sample(['enter', 'enter_existing', 'leave', 'emit_cb',
+                       'close_room', 'sdisc'], rng.randint(1, 4))
+    d = D.make_drive(kind, async_handlers=False, namespaces=['/', '/a'])
+    d.sio.on('connect', lambda sid, environ, auth=None: None, namespace=ns)
+    d.sio.on('disconnect', lambda sid, reason: None, namespace=ns)
+    w = {'part': 'late_ops_with_bystander', 'case_index': k, 'kind': kind,
+         'namespace': ns, 'end': end, 'late_operations': late}
+    try:
+        b = d.open()
+        b.connect(ns)
+        bsid = b.sids[ns]
+        d.api('enter_room', bsid, 'lobby', namespace=ns)
+        # warm-up client
+        t0 = d.open()
+        t0.connect(ns)
+        d.api('enter_room', t0.sids[ns], 'lobby', namespace=ns)
+        t0.lose()
+        b.drain()
+        b.packets[:] = []
+        d.transports = [t for t in d.transports if t.alive]
+        d.clear_errors()
+        base = G.measure(d.sio, extra_skip=(d,))
+        a = d.open()
+        a.connect(ns)
+        sid = a.sids[ns]
+        d.api('enter_room', sid, 'lobby', namespace=ns)
+        d.api('enter_room', sid, 'mine-%d' % k, namespace=ns)
+        if end == 'cdisc':
+            a.send_packet(R_DISCONNECT, ns)
+        elif end == 'sdisc':
+            d.api('disconnect', sid, namespace=ns)
+        else:
+            a.lose()
+        raised = []
+        for op in late:
+            try:
+                if op == 'enter':
+                    d.api('enter_room', sid, 'late-%d' % k, namespace=ns)
+                elif op == 'enter_existing':
+                    d.api('enter_room', sid, 'lobby', namespace=ns)
+                elif op == 'leave':
+                    d.api('leave_room', sid, 'lobby', namespace=ns)
+                elif op == 'emit_cb':
+                    d.api('emit', 'late', {'x': 1}, to=sid, namespace=ns,
+                          callback=lambda *x: None)
+                elif op == 'close_room':
+                    d.api('close_room', sid, namespace=ns)
+                else:
+                    d.api('disconnect', sid, namespace=ns)
+            except Exception as e:
+                raised.append([op, type(e).__name__])
+        w['late_operations_raised'] = raised
+        if a.alive:
+            a.lose()
+        b.drain()
+        b.packets[:] = []
+        d.transports = [t for t in d.transports if t.alive]
+        d.clear_errors()
+        ctx.count('late_ops_with_bystander')
+        m = d.sio.manager
+        listed = sorted(str(room) for room, members in
+                        m.rooms.get(ns, {}).items() if sid in members)
+        rooms_api = list(d.api('rooms', sid, namespace=ns))
+        w['internals'] = jsonable({
+            'rooms': {str(room): sorted(members.keys()) for room, members
+                      in m.rooms.get(ns, {}).items()},
+            'callbacks': {str(kk): len(v) for kk, v in m.callbacks.items()}})
+        if listed or rooms_api:
+            ctx.violation(None, 'a client that has gone (%s) is listed in '
+                          'rooms %r after the application used its session '
+                          'id once more (%s) while another client kept the '
+                          'namespace alive' % (end, listed or rooms_api,
+                                               ', '.join(late)), w)
+            return
+        size = G.measure(d.sio, extra_skip=(d,))
+        if size[0] != base[0]:
+            w['graph_growth'] = G.diff(base[1], size[1])
+            ctx.violation(None, 'after a client came and went (%s; late '
+                          'operations: %s) with another client in the '
+                          'namespace the objects reachable from the server '
+                          'grew from %d to %d: %r' % (
+                              end, ', '.join(late), base[0], size[0],
+                              w['graph_growth']), w)
+            return
+        ctx.case(('late_ops_with_bystander', kind, ns, end,
+                  tuple(sorted(late))), None)
+    finally:
+        d.close()
+
+
+R_DISCONNECT = 1
+
+
 def core_bug(msg):
     from vlib import core
     return core.CheckBug(msg)
@@ -749,6 +855,8 @@ def run_case(ctx, k):
         refusal_race(ctx, k)
     if k % 5 == 1:
         late_work_race(ctx, k + (k // 5) % 2)
+    if k % 5 == 2:
+        late_ops_with_bystander(ctx, k + (k // 5) % 2)
     rng = ctx.case_rng(k)
     c = Case(ctx, rng, 'sync' if k % 2 == 0 else 'async', k)
     try:
@@ -779,6 +887,7 @@ def run(ctx):
     ctx.require('fault_positions', 30)
     ctx.require('refusal_races', 10)
     ctx.require('late_work_races', 10)
+    ctx.require('late_ops_with_bystander', 10)
     ctx.require('residue_checks', 50)
     ctx.require('graph_size_comparisons', 40)
     ctx.require('probe_traces_compared', 5)
@@ -832,6 +941,8 @@ def replay(ctx, w):
         return c20.run_schedule(ctx, wi['causes'], wi['choices'], None, None,
                                 False, c20.baseline_size(),
                                 wi.get('partial_binary_packet', False))
+    if w['witness'].get('part') == 'late_ops_with_bystander':
+        return late_ops_with_bystander(ctx, w['witness']['case_index'])
     if w['witness'].get('part') == 'late_work_race':
         return late_work_race(ctx, w['witness']['case_index'])
     if w['witness'].get('part') == 'refusal_race':
